@@ -94,7 +94,7 @@ func C12(e *Env) {
 	}
 	c10RunE(e)
 	r.Rule("R10.6", "error list (shared with C10)", 1)
-	r.Rule("R10.2", "output-file contract on every path (shared with C10): the file is written only after a successful build, and a nil return only after a successful write", 3)
+	r.Rule("R10.2", "output-file contract on every path (shared with C10): the file is written only after a successful build, and a nil return only after a successful write", 2)
 	r.Rule("R10.1", "the written path is the -o path (shared with C10)", 1)
 	c10Exit(e, moduleCalls(e.P))
 	r.Rule("R10.5", "exit status is 0 or 1: os.Exit(1) only in main behind a failed Execute; no other process exit (shared with C10)", 1)
